@@ -41,7 +41,7 @@ func init() {
 		ID: "C02",
 		Rule: "case = one workload item -> all structures it yields. Items 0..A-1 (A = 10 000 quick / 300 000 thorough): one generated API history (gen/frag: 1..3 tracks, 1..2 segments, 1..3 fragments each with 0..8 samples per op, single/multi-track, full/interval/metadata-only mdat, emsg/prft/free/skip/uuid/unknown children, hostile or tame values) -> the InitSegment, every Fragment built fresh from its spec with and without OptimizeTrun, every MediaSegment with 0..3 sidx boxes and with/without styp, and the whole assembled file decoded by DecodeFile/DecodeFileSR in box-tree and segment mode. " +
 			"Remaining items: the shared C01 input list (corpus seeds, hand-built boxes of every registered type and version/flag shape, gentle mutants, bit flips, field values, N1/N2/N3, nesting, sequences) decoded by DecodeBox, DecodeBoxSR, DecodeFile, DecodeFileSR (fragmented files in both encode modes). " +
-			"Per structure X (fresh instance): s0=Size(); b1=Encode into a buffer; s1=Size(); Info at a PRNG-chosen level into io.Discard; b2=EncodeSW into a FixedSliceWriter of capacity s1+64 and again of capacity exactly s1 (must succeed); b3=Encode. Assertions: len(b1)=s1 (minus lazily written mdat payload), s0=s1 unless trun optimisation is on, len(b2)=s1, b3=b1 and second EncodeSW=b2, the reference walker tiles b1 exactly, and for every node of the library tree the node's size field = node.Size() = length of the node encoded on its own = its sub-range of the parent's bytes, children tiling the tail of their parent. " +
+			"Per structure X (fresh instance): s0=Size(); b1=Encode into a buffer; s1=Size(); Info at a PRNG-chosen level into io.Discard; b2=EncodeSW into a FixedSliceWriter of capacity s1+64 and again of capacity exactly s1 (must succeed); 0..2 further Info calls; b3=Encode. Assertions: len(b1)=s1 (minus lazily written mdat payload), s0=s1 unless trun optimisation is on, len(b2)=s1, b3=b1 and second EncodeSW=b2, the reference walker tiles b1 exactly, and for every node of the library tree the node's size field = node.Size() = length of the node encoded on its own = its sub-range of the parent's bytes, children tiling the tail of their parent. " +
 			"Encoders that return an error are outside the property (counted; for decoded structures listed in evidence). non-trivial = a structure whose Encode succeeded and that contains at least one box; distinct by hash of (kind, b1). evaluations = structures checked.",
 		Assumptions: []string{
 			"MdatBox in lazy mode (SetLazyDataSize / metadata-only fragments): by its documented contract the payload is counted by Size() and written by the caller; the expected length is Size() minus the lazy payload",
@@ -304,6 +304,14 @@ func check(c *runner.Ctx, s work.Struct, h *genfrag.History) {
 		}
 	} else if e2.Err != nil {
 		c.Count("encodesw_error_after_encode_ok", 1) // C03(a) decides
+	}
+	// 0..2 further Info calls at other levels before the second Encode
+	for n := c.Rand.Intn(3); n > 0; n-- {
+		l2 := infoLevels[c.Rand.Intn(len(infoLevels))]
+		if pi := c.Guard(func() { _ = x.Info(io.Discard, l2, "", " ") }); pi != nil {
+			c.Count("panics_left_to_C04", 1)
+			return
+		}
 	}
 	e3 := work.EncodeW(c, x)
 	if e3.Panic != nil {
